@@ -295,6 +295,22 @@ def families(prop, tier):
                     cases.append(dict(backend='dict', gate_store=False, nmsgs=1 + (i1 + i2) % 2, nrcpt=1 + i1 % 2, backoff=bo,
                                       real_relay=dict(kind='http', actions=[a1, a2, 'ok200'], idle=5 if (i1 + i2) % 3 == 0 else None)))
         fams.append(dict(name='realrelay-http', mode='real', cases=cases))
+    # the repository's own SMTP / LMTP relays in front of the queue, failing with replies they make up themselves (timeout,
+    # refused connection, lost connection) or pass on, for two messages in a row that the queue gives up on: each bounce quotes
+    # the reply its own message failed with
+    if prop in ('C13',):
+        cases = []
+        for kind in ('smtp', 'lmtp'):
+            for i1, s1 in enumerate([{'eod': 'stall'}, {'mail': 'stall'}, {'banner': 'stall'}, {'eod': 'disconnect'}, {'banner': 421}, {'eod': 450},
+                                     {'rcpt': [450, 450, 450]}, 'refuse']):
+                for bo in ([None], [0, None]):
+                    if q and (i1 + len(bo)) % 2 and kind == 'lmtp':
+                        continue
+                    rr = dict(kind=kind, scripts=[{} if s1 == 'refuse' else s1] * 6, pipelining=bool(i1 % 2))
+                    if s1 == 'refuse':
+                        rr['connect'] = {k: 'refuse' for k in range(6)}
+                    cases.append(dict(backend='dict', gate_store=False, nmsgs=2, nrcpt=1 + i1 % 2, backoff=bo, real_relay=rr))
+        fams.append(dict(name='realrelay-bounce', mode='real', cases=cases))
     # a bounce that cannot be delivered either: its own failure / exhaustion must not produce another bounce
     if prop in ('C13',):
         for bo in ([None], [0, None]):
